@@ -21,6 +21,10 @@ CLAIMED = {
              note=COMMON_NOTE + ' Map<Cell*>/Map<RawCell*> replaced by an abstract association list in the graph queries (C20 proves Map<T>), strlen/copy_string by contract for 1-character names; recursive query on enumerated acyclic graph shapes.', ref='3.8'),
  'C18': dict(text='Modular solver decision of the truncation property: (1) the real gdsii_read_record on every stream of 0..12 arbitrary bytes is a correct short-read detector; (2) each GDSII reader (read_gds, read_rawcells, gds_units, gds_timestamp, gds_info), with the record reader replaced by that contract, is executed symbolically on record prefixes of enumerated kinds with arbitrary payloads followed by a short read: it returns (unwinding assertions = no hang), touches no invalid memory (CBMC pointer checks = no double free), releases its handle and never returns a shortened layout; (3) oas_precision / oas_validate on the OASIS magic plus arbitrary bytes at every cut position.',
              note=COMMON_NOTE + ' in-memory FILE model with handle counting; crc32 as a rolling function; record buffers shrunk from 65537 to 64 bytes by the translator; memory leaks are not asserted.', ref='3.12'),
+ 'C01': dict(text='The real Library::write_gds runs on an in-memory file for single-element libraries with symbolic coordinates, tags, text and placement; the solver proves (phase 1) that the bytes pass an independent strict decoder and decode to the saved library, (phase 2) that the real read_gds returns the same unit, precision, names and element fields, (phase 3) that writing the re-loaded library gives a byte-identical file; array lattices are proved to survive export (AREF corner points and counts).',
+             note=COMMON_NOTE + ' unit = precision (scaling 1); libm contracts; strlen by contract (1-character strings); Polygon::fracture (Clipper) asserted unreachable without a vertex limit.', ref='3.9'),
+ 'C03': dict(text='Reader direction: streams produced by a specification-derived encoder (harness/gds_spec.h) - BOUNDARY (with ELFLAGS/PLEX), BOX, PATH with every PATHTYPE / signed WIDTH / extensions, SREF and AREF, TEXT with PRESENTATION/STRANS/MAG/ANGLE, property pairs, split XY, UNITS with and without a target unit - are loaded by the real read_gds into exactly the encoded layout, all field values symbolic. Writer direction: strict decoder over write_gds output and the AREF export obligation.',
+             note=COMMON_NOTE + ' framing fixed per variant (one element per file), MAG/ANGLE from a small concrete set in whole-file queries (the real8 codec is proved for all values in C19).', ref='3.9'),
 }
 NA = {
 }
